@@ -95,6 +95,10 @@ class Universe:
                 self.bad_blocks.append(blk)
         # a NEW valid block on the head (unknown to the node) and copies of it with a corrupted body under the genuine header
         self.next = w.build_block({"label": "next", "parent": head_label, "miner": 3, "dt": w.safe_dt(head, 45), "txs": []})
+        self.next2 = None
+        if self.next is not None:
+            w.accept("next", self.next)            # (only so that a successor can be built; the node's state does not hold it)
+            self.next2 = w.build_block({"label": "next2", "parent": "next", "miner": 4, "dt": 30, "txs": []})
         self.next_corrupt = []
         for k in range(3):
             cb = self.next.txs[0]
@@ -241,6 +245,25 @@ def one_case(u, rnd, res, M, record=None):
                     len(w.received), (w.host, w.remote_peer.port, w.remote_peer.direction) in node.nm.connected_peers) for w in by],
         }
 
+    published = False
+    if u.next2 is not None and rnd.random() < 0.3:
+        # history before the attack: a bystander relays a new valid block (validated by the node), then the node publishes a
+        # block of its OWN on top of it the way its miner does (set_coinstate without further ado)
+        simnet.CLOCK.now = max(simnet.CLOCK.now, u.next2.ts + 1)
+        simnet.CLOCK.now += (61 - simnet.CLOCK.now % 60) % 60 or 0
+        if simnet.CLOCK.now % 60 == 0:
+            simnet.CLOCK.now += 1
+        by[1].send(M.DataMessage(M.DATA_BLOCK, u.b.to_sk_block(u.next)))
+        by[1].deliver()
+        if node.cm.coinstate.current_chain_hash == u.next.id():
+            own = node.cm.coinstate.add_block(u.b.to_sk_block(u.next2), simnet.CLOCK.now)
+            net.call(node, node.cm.set_coinstate, own)
+            node.nm.broadcast_block(u.b.to_sk_block(u.next2))
+            net.drain(None, only=[node])
+            for w in by:
+                w.collect()
+            published = True
+            res.count("cases_after_the_node_published_its_own_block")
     before = snap()
     cs_before = node.cm.coinstate
     # the attacker's stream
@@ -306,7 +329,7 @@ def one_case(u, rnd, res, M, record=None):
     if net.escaped and not res.failures:
         res.fail("escape", "exception-escaped-late", net.escaped[0][1], case)
     # and a NEW valid block delivered by a bystander afterwards is still adopted (the attack must not have poisoned anything)
-    if rnd.random() < 0.5 and after["cs"] == before["cs"]:
+    if rnd.random() < 0.5 and after["cs"] == before["cs"] and not published:
         w = by[0]
         simnet.CLOCK.now = max(simnet.CLOCK.now, u.next.ts)
         if rnd.random() < 0.5:
